@@ -19,7 +19,7 @@
    (auth_X from any thread, close) are interleaved with them at message granularity (each handler
    runs to completion on the transport thread; the auth_X guard reads two flags).  What the key
    exchange computes is abstracted to the outcome [sig_ok] of Transport._verify_key. *)
-From PV Require Import Bytes C41 C17_gen.
+From PV Require Import Bytes C41.
 Open Scope Z_scope.
 
 (* ---- vocabulary -------------------------------------------------------------------------- *)
